@@ -64,18 +64,18 @@ theorem read_adv (p : Nat) (sc : SC) (conn pre : Bytes) (size : Nat)
           have hpp : p' = p := by omega
           subst hpp
           have hfw : sent[p'].WF := hwf _ (List.getElem_mem hp')
-          have hf : f = mkFrame sent[p'].1 sent[p'].2 := by
+          have hf : f = mkFrame sent[p'] := by
             rw [hs, sealedAt, hC] at ho
             exact (Option.some.inj ho).symm
           subst hf
           have hc : c0 + p' < maxUint64 := by omega
           have ho' : A.doOpen sc.recvKey sc.recvNonce (conn.take sealedFrameSize) =
-              some (mkFrame sent[p'].1 sent[p'].2) := by rw [h.key, h.nonce]; exact ho
-          rw [read_accept A sc conn size (c0 + p') sent[p'].1 sent[p'].2 hb h1' h.nonce hc hfw.2 ho']
+              some (mkFrame sent[p']) := by rw [h.key, h.nonce]; exact ho
+          rw [read_accept A sc conn size (c0 + p') sent[p'] hb h1' h.nonce hc hfw.2 ho']
           refine ⟨by simp, noForgery_drop A k c0 sent conn hnf h1', p' + 1, ⟨hp', h.key, ?_⟩, ?_⟩
           · show nonceOf (c0 + p' + 1) = nonceOf (c0 + (p' + 1))
             rw [Nat.add_assoc]
-          · show payload (sent.take (p' + 1)) = pre ++ sent[p'].1.take _ ++ sent[p'].1.drop _
+          · show payload (sent.take (p' + 1)) = pre ++ sent[p'].take _ ++ sent[p'].drop _
             rw [payload_take_succ sent p' hp', hpre, hb, List.append_nil, List.append_assoc,
               List.take_append_drop]
   · rw [read_buffer A sc conn size hb]
@@ -137,7 +137,7 @@ theorem noForgery_of_nonceBinding (A : AEAD) (k : Bytes) (c0 : Nat) (sent : List
   apply Classical.byContradiction
   intro hne
   have hcp : c0 + p < 2 ^ 64 := by rw [maxUint64_eq] at hroom; omega
-  have := hB (c0 + p) j (mkFrame sent[p].1 sent[p].2) hcp hj (fun e => hne e.symm)
+  have := hB (c0 + p) j (mkFrame sent[p]) hcp hj (fun e => hne e.symm)
   rw [hsp, sealedAt, this] at ho
   cases ho
 
